@@ -8,9 +8,9 @@ from vf.ref.model import model_from_sdl
 from tartiflette import Resolver, TypeResolver, Scalar, Subscription
 
 SDL_T = """
-interface Node {{ id: ID! }}
-type A implements Node {{ id: ID! n: Int peer: Node color: Color }}
-type B implements Node {{ id: ID! flag: Boolean }}
+interface Node {{ id: ID! owner: Leaf }}
+type A implements Node {{ id: ID! owner: Leaf n: Int peer: Node color: Color }}
+type B implements Node {{ id: ID! owner: Leaf flag: Boolean }}
 type C {{ x: Int }}
 union U = A | B
 enum Color {{ RED GREEN }}
